@@ -27,6 +27,8 @@ namespace c08
     struct AxL {};  // run-time list of int
     struct AxN {};  // None
     struct AxC {};  // compile-time int (meta::ct_v<k>, k in -3..2 selected by the run-time value of the case file)
+    struct AxS {};  // run-time list in a BOUNDED container that is not full (static_vector<int,2>, one entry = not full, or two), applied to a
+                    // source of compile-time dimension 3 (fixed-dim shape array, run-time extents)
     struct KT {};   // keepdims = True (compile-time)
     struct KF {};   // keepdims = False (compile-time)
     struct KR {};   // keepdims = run-time bool
@@ -38,6 +40,13 @@ namespace c08
     {
         if constexpr (std::is_same_v<AK, AxI> || std::is_same_v<AK, AxC>) return (int)in.i();
         else if constexpr (std::is_same_v<AK, AxL>) return vh::to_list<int>(in.vec());
+        else if constexpr (std::is_same_v<AK, AxS>) {
+            auto v = in.vec();
+            nmtools_static_vector<int, 2> sv;
+            sv.resize(v.size());
+            for (size_t i = 0; i < v.size(); i++) sv[i] = (int)v[i];
+            return sv;
+        }
         else return nm::None;
     }
 
@@ -128,9 +137,8 @@ namespace c08
         bool kd = in.i() != 0;
         I init = rd<I>(in);
         Groups gr(in);
-        auto a = oa.arr();
         using F = post_result_t<R, POST>;
-        auto body = [&](const auto& axis_) {
+        auto run = [&](const auto& a, const auto& axis_) {
             auto call = [&](auto keep) {
                 if constexpr (std::is_same_v<IK, IY>) return vf(a, axis_, init, keep);
                 else return vf(a, axis_, nm::None, keep);
@@ -140,9 +148,16 @@ namespace c08
             else { auto v = call(kd); emit_any<F>(out, v); }
         };
         if constexpr (std::is_same_v<AK, AxC>) {
-            if (!vh::with_ct<-3, 2>(axis, body)) { out.tok("ERR axis"); return; }
+            auto a = oa.arr();
+            if (!vh::with_ct<-3, 2>(axis, [&](auto ax) { run(a, ax); })) { out.tok("ERR axis"); return; }
+        } else if constexpr (std::is_same_v<AK, AxS>) {
+            if (oa.shape.size() != 3) { out.tok("ERR dim"); return; }
+            auto a = vh::make_fd<T, 3>(oa.shape, 0);
+            for (size_t k = 0; k < oa.data.size(); k++) a.data()[k] = oa.data[k];
+            run(a, axis);
         } else {
-            body(axis);
+            auto a = oa.arr();
+            run(a, axis);
         }
         emit_folds<R>(out, gr, oa.data, op, std::is_same_v<IK, IY>, init, post);
     }
